@@ -22,7 +22,8 @@ Signatures name the mechanism: args-rejected:instance-never-disposed (an instanc
 gets a callback and is never removed), started-after-cancel:<code-issued|user-request>:command-survives-stop (a command
 first initialised after the Stop/Restart - issued by code or requested by the user - had cancelled the running commands),
 restarted-after-cancel:command-survives-stop (an instance id that was cancelled + finalized and then created again by its own
-stale request), not-cancelled:<Stop|Restart>:<symptom> (a command that was running
+stale request), pending-request-started-after-cancel:command-survives-stop (a request left un-started by an aborted command
+loop starts after a later Stop/Restart cancelled everything), not-cancelled:<Stop|Restart>:<symptom> (a command that was running
 before), runlog:not-producible:<exception>; symptoms that merely follow from a leaked instance at the same stop (old
 instance executing in the new run, restart differing from a fresh start) are attributed to that mechanism and counted.
 """
@@ -164,7 +165,11 @@ def oracle(case, tr: C.Trace, ref_eff: list | None = None) -> tuple[list[Violati
                     # the instance id had a life before: it was cancelled + finalized and then its own, still listed request
                     # created it again (by-name cancellation in the command manager); independent of how Stop was delivered
                     return "restarted-after-cancel"
-                return "started-after-cancel"   # first initialised after Stop/Restart had cancelled the running commands
+                if P is not None and any(rid == iid for _n, rid in P.reqs):
+                    # its request was already listed before the tick of the Stop/Restart but had not started (the command loop
+                    # of that tick was aborted by a failing command): every later Stop/Restart is placed in front of it
+                    return "pending-request-started-after-cancel"
+                return "started-after-cancel"   # requested in the tick of the Stop/Restart, started after its cancellation
             return "not-cancelled"
 
         symptoms: dict = {}      # mechanism -> {symptom: message}
@@ -252,6 +257,9 @@ def oracle(case, tr: C.Trace, ref_eff: list | None = None) -> tuple[list[Violati
                 # the delivery is part of the mechanism: for a Stop/Restart issued by code the request queue order puts the
                 # Stop ahead of a command the main thread requested in that tick; for a user request it does not
                 viol("started-after-cancel:%s:command-survives-stop" % delivery,
+                     "[%s] (%s %s) %s" % (", ".join(sorted(sy)), delivery, kind, "; ".join(sy[k] for k in sorted(sy))))
+            elif mech == "pending-request-started-after-cancel":
+                viol("pending-request-started-after-cancel:command-survives-stop",
                      "[%s] (%s %s) %s" % (", ".join(sorted(sy)), delivery, kind, "; ".join(sy[k] for k in sorted(sy))))
             elif mech == "restarted-after-cancel":
                 viol("restarted-after-cancel:command-survives-stop",
